@@ -1,0 +1,64 @@
+//go:build verif
+
+package builder
+
+// Comment-only file: machine-checked contracts for /verif (see /verif/DESIGN.md).
+// There is no code in this file; the build tag keeps it out of every normal build.
+//
+// C17 - builder transformations do only what they document.
+//
+// A selector is a read-only, deterministic predicate on (schemas, builder).
+//@ functype Selector
+//@   property C17
+//@   pure
+//@   modifies nothing
+//
+// (trail contents are not tracked across builders: their backing arrays may be shared)
+//@ spec trailExtended(n, o) = len(n) == len(o) + 1
+//
+// omit: exactly the selected builders are removed; the others are kept as they were, in order
+// (src maps a kept builder to its index in the input).
+//@ spec buildersKept(sel, ss, olds, n, news) = existsfn src: int -> int ::
+//@        (forall j: int :: 0 <= j && j < len(news) ==> 0 <= src(j) && src(j) < n && news[j] == olds[src(j)] && !apply(sel, ss, olds[src(j)]))
+//@     && (forall j1, j2: int :: 0 <= j1 && j1 < j2 && j2 < len(news) ==> src(j1) < src(j2))
+//@     && (forall i: int :: 0 <= i && i < n && !apply(sel, ss, olds[i]) ==> (exists j: int @kj :: 0 <= j && j < len(news) && src(j) == i))
+//
+//@ func Omit$1
+//@   property C17
+//@   requires selector != nil
+//@   modifies nothing
+//@   ensures  noerr: result.1 == nil
+//@   ensures  kept: buildersKept(selector, schemas, builders, len(builders), result.0)
+//@   loop 0:
+//@     invariant fresh: base(filteredBuilders) != 0 && fresh(filteredBuilders)
+//@     invariant kept: buildersKept(selector, schemas, builders, $i + 1, filteredBuilders) witness src(j) := ite($i >= 0 && j == len(filteredBuilders) - 1 && !apply(selector, schemas, builders[$i]), $i, skolem("src", "last", j)) witness kj := ite(i == $i, len(filteredBuilders) - 1, skolem("kj", "last", i))
+//
+// rename: the selected builders get the new name (and a trail entry); everything else about them,
+// and every other builder, is left as it was.
+//@ func Rename$1
+//@   property C17
+//@   requires selector != nil
+//@   modifies builders[*], spare-capacity
+//@   ensures  same: result.0 == builders && result.1 == nil
+//@   ensures  renamed: forall i: int :: 0 <= i && i < len(builders) && old(apply(selector, schemas, builders[i])) ==> builders[i].Name == newName && trailExtended(builders[i].VeneerTrail, old(builders[i].VeneerTrail)) && with(with(builders[i], "Name", old(builders[i].Name)), "VeneerTrail", old(builders[i].VeneerTrail)) == old(builders[i])
+//@   ensures  others: forall i: int :: 0 <= i && i < len(builders) && !old(apply(selector, schemas, builders[i])) ==> builders[i] == old(builders[i])
+//@   loop 0:
+//@     invariant done: forall i: int :: 0 <= i && i <= $i && old(apply(selector, schemas, builders[i])) ==> builders[i].Name == newName && trailExtended(builders[i].VeneerTrail, old(builders[i].VeneerTrail)) && with(with(builders[i], "Name", old(builders[i].Name)), "VeneerTrail", old(builders[i].VeneerTrail)) == old(builders[i])
+//@     invariant doneothers: forall i: int :: 0 <= i && i <= $i && !old(apply(selector, schemas, builders[i])) ==> builders[i] == old(builders[i])
+//@     invariant todo: forall i: int :: $i < i && i < len(builders) ==> builders[i] == old(builders[i])
+//
+// Selectors by name: package and name are both compared case-insensitively.
+//@ func ByObjectName$1
+//@   property C17
+//@   modifies nothing
+//@   ensures  result == (eqfold(builder.For.SelfRef.ReferredPkg, pkg) && eqfold(builder.For.SelfRef.ReferredType, objectName))
+//
+//@ func ByName$1
+//@   property C17
+//@   modifies nothing
+//@   ensures  result == (eqfold(builder.For.SelfRef.ReferredPkg, pkg) && eqfold(builder.Name, builderName))
+//
+//@ func EveryBuilder$1
+//@   property C17
+//@   modifies nothing
+//@   ensures  result
